@@ -3,7 +3,7 @@ From Coq Require Import List ZArith NArith String Ascii Decimal DecimalString De
   DecimalPos DecimalN Lia Bool.
 From DD Require Import Model.Circuit Model.Writer Model.Lexer.
 Import ListNotations.
-Open Scope string_scope.
+Local Open Scope string_scope.
 
 (* ---------- strings ---------- *)
 Lemma sapp_nil_r (s : string) : s ++ "" = s.
